@@ -7,8 +7,8 @@
    forced-mate solver extracted from the rules-of-chess specification (mate/mated in <= 2 moves) on mate positions.
    Honest limit (DESIGN.md): for depth >= 3 "announced mate => forced mate" is not a theorem of an engine with null-move pruning
    and a TT shared across histories; it is searched for counterexamples, not proved. *)
-From Coq Require Import ZArith.
-From JV Require Import Gen.Consts Model.TT Model.Search Proofs.TTProofs Proofs.MateProofs.
+From Coq Require Import ZArith Lia.
+From JV Require Import Gen.Consts Model.Chess Model.Eval Model.TT Model.Search Proofs.TTProofs Proofs.MateProofs Proofs.LegalInv Proofs.CountProofs Proofs.EvalReach Proofs.StartPos.
 Local Open Scope Z_scope.
 
 Theorem C11_conv_pos : forall p, 1 <= p < 1000 -> Z.odd p = true -> mate_field (MATE_VALUE - p) = Some ((p + 1) / 2).
@@ -30,6 +30,16 @@ Proof. exact rebase_mating. Qed.
 Theorem C11_pre_fix_refuted : mate_field_neg_pre_fix (- MATE_VALUE + 2) = -2.
 Proof. exact pre_fix_mated_next_move. Qed.
 
+(* a mate is never announced on the strength of a static evaluation: for every position satisfying the invariant with at most 16 men a
+   side (every position reachable from the start position) the evaluation lies strictly inside +-MATE_BOUND (C16), so it prints as
+   centipawns; a score in the mate range can only come from a checkmate verdict at a leaf of the search (-MATE_VALUE + ply) *)
+Theorem C11_static_evaluation_never_prints_as_mate : forall g, legal_inv g -> men16 g -> mate_field (evaluate g) = None.
+Proof. intros g L M. apply C11_conv_cp. pose proof (evaluate_bound_inv g L M). lia. Qed.
+Theorem C11_static_evaluation_never_prints_as_mate_from_the_start_position : forall g, chess_reach start_game g -> mate_field (evaluate g) = None.
+Proof. intros g R. apply C11_conv_cp. pose proof (evaluate_bound_from_start g R). lia. Qed.
+
 Print Assumptions C11_conv_pos.
 Print Assumptions C11_conv_neg.
 Print Assumptions C11_sign.
+Print Assumptions C11_static_evaluation_never_prints_as_mate.
+Print Assumptions C11_static_evaluation_never_prints_as_mate_from_the_start_position.
